@@ -198,6 +198,10 @@ func TimerDurations() []int64 { return nil }
 func ReadDeadlines() []int64  { return nil }
 func TimersFired() int        { return 0 }
 
+// RedialsWithoutBackoff: dials to an address that was dialled before with no time.Sleep by
+// anybody since that previous dial (engine only; natively 0).
+func RedialsWithoutBackoff() int { return 0 }
+
 // Engine-only observations of the race / lock-discipline monitors (natively: run with -race instead).
 func Races() int                { return 0 }
 func RaceDesc() string          { return "" }
